@@ -83,6 +83,16 @@ PROPS = {
         trusted=["pointer-level model of list.DList (address-indexed store) for LStack"],
         assumptions=["element type int stands for every comparable T"],
     ),
+    "C18": dict(
+        level_text="Proof: state-machine models of After/Before/Once over the caller-owned counter and the C08 cache model, and of Retry/RetryWithDelay over a script of callback outcomes; theorems for all n, all call counts, all scripts and all instants (After runs on call k iff k > max n 0; Before on exactly the first max n 0 calls, later calls return the last run's result; Once runs once per cache-entry life and returns the first result; Retry makes min(n, first success + 1) calls, none for n <= 0, reports failures and last error; RetryWithDelay spacing). Tie: exhaustive small n x calls x scripts on the real code under testing/synctest; Lean monitor on the implementation's answers.",
+        level_note="Lean kernel + standard axioms; counter type modelled as unbounded Int (no-wrap side condition stated); Before/Once hypotheses: cache entry 'func' absent at start.",
+        groups=["C18"], quick_shards=8,
+        observers=(),
+        rule="After/Before: every n in -2..8 x 0..12 calls; Once: all call/sleep scripts up to length 6 (quick) / 8 (thorough) with and without expiry (virtual clock); Retry: every n in -2..8 x every outcome script up to length 6/8, RetryWithDelay with delays 3..7 ms and virtual timestamps; non-trivial = calls past the threshold n >= 1 / a second Once call / >= 2 Retry attempts; distinct = distinct op sequence",
+        exhaustive_part="all n x call counts; all outcome scripts up to the bound; all Once call/sleep scripts up to the bound",
+        trusted=["testing/synctest virtual clock"],
+        assumptions=["no wrap-around of the caller-owned counter", "the cache passed to Before/Once starts without an entry \"func\""],
+    ),
     "C19": dict(
         level_text="Proof: pointer-level store models of list.SList and list.DList (address 0 = embedded head, struct copies allocate) are related to the abstract sequence by an explicit representation predicate; each modelled operation preserves it and realises its sequence meaning, walks terminate, no operation panics. Tie: exhaustive small-scope + seeded correspondence on the Each sequence, First/Last/Find, errors and (verif hook) the raw prev structure; Lean relational sequence monitor on the implementation's answers.",
         level_note="Lean kernel + standard axioms; partial: see DESIGN.md (which operations have the full Repr proof); Go pointer semantics modelled by an address-indexed store.",
